@@ -289,7 +289,9 @@ E2E_SLOTS = [
     (b"JSIGHT 0.3\nURL{P}\n  GET\n    200 any\n", [[b"/cats"]]),
     (b"JSIGHT 0.3\nGET /c\n  Query{P}\n    {}\n  200 any\n", [[b"page=1"], [b"page=1", b"noFormat"], [b"a=1&b=2", b"htmlFormEncoded"]]),
     (b"JSIGHT 0.3\nTYPE @t\n  {}\nGET /c\n  200{P}\n", [[b"@t"], [b"any"], [b"[@t]"]]),
-    (b"JSIGHT 0.3\nTYPE @t\n  {}\nPOST /c\n  Request{P}\n  200 any\n", [[b"@t"], [b"empty"]]),
+    (b"JSIGHT 0.3\nTYPE @t\n  {}\nGET /c\n  200{P}\n  404 any\nGET /d\n  200 any\n", [[b"@t"], [b"any"], [b"[@t]"], [b"empty"]]),
+    (b"JSIGHT 0.3\nTYPE @t\n  {}\nGET /c\n  200\n    Body{P}\n  404 any\n", [[b"@t"], [b"[@t]"], [b"any"]]),
+    (b"JSIGHT 0.3\nTYPE @t\n  {}\nPOST /c\n  Request{P}\n  200 any\n", [[b"@t"], [b"empty"], [b"[@t]"]]),
     (b"JSIGHT 0.3\nTYPE{P}\n  {}\n", [[b"@t"]]),
     (b"JSIGHT 0.3\nTYPE{P}\n  /a/\n", [[b"@t", b"regex"]]),
     (b"JSIGHT 0.3\nTAG{P}\nGET /c\n  Tags @t\n  200 any\n", [[b"@t"]]),
